@@ -21,8 +21,6 @@ type gtCtx struct {
 	mon  bool
 }
 
-type gtLoop struct{}
-
 type gtCont func() string
 
 func gtIndent(s string, n int) string {
@@ -73,10 +71,14 @@ type gtSnap struct {
 	monOps int
 	names  map[string]bool
 	vars   map[*types.Var]*gtVar
+	derefs map[*types.Var]string
 }
 
 func (f *gtFn) snap() gtSnap {
-	s := gtSnap{tmpN: f.tmpN, monOps: f.monOps, names: map[string]bool{}, vars: map[*types.Var]*gtVar{}}
+	s := gtSnap{tmpN: f.tmpN, monOps: f.monOps, names: map[string]bool{}, vars: map[*types.Var]*gtVar{}, derefs: map[*types.Var]string{}}
+	for k, v := range f.derefs {
+		s.derefs[k] = v
+	}
 	for k, v := range f.names {
 		s.names[k] = v
 	}
@@ -87,7 +89,25 @@ func (f *gtFn) snap() gtSnap {
 }
 
 func (f *gtFn) restore(s gtSnap) {
-	f.tmpN, f.monOps, f.names, f.vars = s.tmpN, s.monOps, s.names, s.vars
+	f.tmpN, f.monOps, f.names, f.vars, f.derefs = s.tmpN, s.monOps, s.names, s.vars, s.derefs
+}
+
+// scoped runs a translation whose text ends up in a nested scope: dereferences made inside are not
+// visible afterwards
+func (f *gtFn) scoped(fn func() string) string {
+	saved := map[*types.Var]string{}
+	for k, v := range f.derefs {
+		saved[k] = v
+	}
+	out := fn()
+	f.derefs = saved
+	return out
+}
+
+func (f *gtFn) forget(vs ...*gtVar) {
+	for _, v := range vs {
+		delete(f.derefs, v.obj)
+	}
 }
 
 // probe runs a translation whose result is discarded and tells whether it needed the panic monad
@@ -131,9 +151,10 @@ func gtChainRoot(e ast.Expr) *ast.Ident {
 }
 
 // stripped reports whether a statement is one of the forms that are left out of the translation:
-//   x.Lock() x.Unlock() x.RLock() x.RUnlock() and `defer` of them;
-//   expression statements that are a call chain rooted at the imported packages `log` or `metrics`;
-//   event sends: x.<...>Events.Send<...>(...)
+//
+//	x.Lock() x.Unlock() x.RLock() x.RUnlock() and `defer` of them;
+//	expression statements that are a call chain rooted at the imported packages `log` or `metrics`;
+//	event sends: x.<...>Events.Send<...>(...)
 func (f *gtFn) stripped(s ast.Stmt) bool {
 	switch x := s.(type) {
 	case *ast.DeferStmt:
@@ -552,8 +573,82 @@ func (f *gtFn) stmt(c *gtCtx, s ast.Stmt, k gtCont) string {
 	return ""
 }
 
-// noteInit records how a local pointer/map/slice variable gets its value (freshness)
+// noteInit is a hook for declarations (freshness is computed beforehand by computeFresh)
 func (f *gtFn) noteInit(gv *gtVar, rhs ast.Expr) {}
+
+// computeFresh: a local variable of reference type is fresh when every assignment to it stores nil, a
+// newly allocated object (composite literal, make) or the result of a constructor that returns such
+func (f *gtFn) computeFresh(body ast.Node) {
+	f.freshVars = map[*types.Var]bool{}
+	bad := map[*types.Var]bool{}
+	seen := map[*types.Var]bool{}
+	note := func(id *ast.Ident, rhs ast.Expr, known bool) {
+		if id == nil || id.Name == "_" {
+			return
+		}
+		v, _ := f.info.Defs[id].(*types.Var)
+		if v == nil {
+			v, _ = f.info.Uses[id].(*types.Var)
+		}
+		if v == nil {
+			return
+		}
+		seen[v] = true
+		if !known || (rhs != nil && !f.freshExpr(rhs)) {
+			bad[v] = true
+		}
+	}
+	ast.Inspect(body, func(n ast.Node) bool {
+		switch x := n.(type) {
+		case *ast.FuncLit:
+			return false
+		case *ast.AssignStmt:
+			for i, l := range x.Lhs {
+				id, ok := gtUnparen(l).(*ast.Ident)
+				if !ok {
+					continue
+				}
+				if len(x.Lhs) == len(x.Rhs) && (x.Tok == token.ASSIGN || x.Tok == token.DEFINE) {
+					note(id, x.Rhs[i], true)
+				} else {
+					note(id, nil, false)
+				}
+			}
+		case *ast.RangeStmt:
+			if id, ok := x.Key.(*ast.Ident); ok {
+				note(id, nil, false)
+			}
+			if id, ok := x.Value.(*ast.Ident); ok {
+				note(id, nil, false)
+			}
+		case *ast.DeclStmt:
+			if gd, ok := x.Decl.(*ast.GenDecl); ok {
+				for _, sp := range gd.Specs {
+					if vs, ok := sp.(*ast.ValueSpec); ok {
+						for i, nm := range vs.Names {
+							if len(vs.Values) == 0 {
+								note(nm, nil, true)
+							} else if len(vs.Values) == len(vs.Names) {
+								note(nm, vs.Values[i], true)
+							} else {
+								note(nm, nil, false)
+							}
+						}
+					}
+				}
+			}
+		}
+		return true
+	})
+	for v := range seen {
+		if !bad[v] {
+			f.freshVars[v] = true
+		}
+	}
+	for _, p := range f.params {
+		delete(f.freshVars, p.obj)
+	}
+}
 
 // freshExpr: the value is nil, newly allocated, or the result of a constructor that returns
 // nil or a new object
@@ -598,8 +693,9 @@ func (f *gtFn) freshExpr(e ast.Expr) bool {
 }
 
 // mutable: may the function modify objects through a path rooted at this variable?
-//   parameters of reference type (they become out parameters), and locals that only ever hold
-//   newly allocated objects
+//
+//	parameters of reference type (they become out parameters), and locals that only ever hold
+//	newly allocated objects
 func (f *gtFn) checkMutableRoot(v *types.Var, at ast.Node) *gtVar {
 	gv, ok := f.vars[v]
 	if !ok {
@@ -655,6 +751,7 @@ func (f *gtFn) store(c *gtCtx, lhs ast.Expr, val gtVal, k gtCont) string {
 		if !gtSameT(gv.t, val.t) {
 			gtFail("%s: internal: assignment of %s to variable of type %s", f.pos(x), f.tr.coqType(val.t), f.tr.coqType(gv.t))
 		}
+		f.forget(gv)
 		return gtBinds(val.pre, "let "+gv.name+" := "+val.s+" in\n"+k())
 	case *ast.SelectorExpr:
 		sel, ok := f.info.Selections[x]
@@ -709,6 +806,7 @@ func (f *gtFn) storeRec(c *gtCtx, place ast.Expr, pre []gtBind, nrec string, rec
 	if id, ok := place.(*ast.Ident); ok {
 		if v, ok := f.info.Uses[id].(*types.Var); ok {
 			if gv, ok := f.vars[v]; ok {
+				f.forget(gv)
 				if gv.nonNil || gv.t.k == gkRec {
 					return gtBinds(pre, "let "+gv.name+" := "+nrec+" in\n"+k())
 				}
@@ -854,6 +952,7 @@ func (f *gtFn) storeOut(c *gtCtx, arg ast.Expr, val gtVal, k gtCont) string {
 	gvr := f.checkMutableRoot(root, arg)
 	if id, ok := arg.(*ast.Ident); ok {
 		_ = id
+		f.forget(gvr)
 		if gvr.nonNil {
 			// val is `Some x` of the record
 			s := strings.TrimPrefix(val.s, "Some ")
@@ -1214,9 +1313,10 @@ func (f *gtFn) switchStmt(c *gtCtx, x *ast.SwitchStmt, k gtCont) string {
 }
 
 // branches translates an if / else-if / else chain.
-//   No return/break/continue inside: the chain becomes an expression whose value is the tuple of the
-//   outer variables it assigns (`let '(a, b) := if .. then .. else .. in rest`).
-//   Otherwise the continuation is placed inside every branch that can fall through.
+//
+//	No return/break/continue inside: the chain becomes an expression whose value is the tuple of the
+//	outer variables it assigns (`let '(a, b) := if .. then .. else .. in rest`).
+//	Otherwise the continuation is placed inside every branch that can fall through.
 func (f *gtFn) branches(c *gtCtx, whole ast.Node, brs []gtBranch, k gtCont) string {
 	if !gtHasExit(whole) {
 		vars := f.outerWritten(whole)
@@ -1236,8 +1336,8 @@ func (f *gtFn) branches(c *gtCtx, whole ast.Node, brs []gtBranch, k gtCont) stri
 					return f.stmts(jc, b.body, func() string { return gtPure(jc, tup) })
 				}
 				cv := b.cond()
-				th := f.stmts(jc, b.body, func() string { return gtPure(jc, tup) })
-				el := build(i + 1)
+				th := f.scoped(func() string { return f.stmts(jc, b.body, func() string { return gtPure(jc, tup) }) })
+				el := f.scoped(func() string { return build(i + 1) })
 				return gtBinds(cv.pre, "if "+cv.s+" then (\n"+gtIndent(th, 1)+"\n) else (\n"+gtIndent(el, 1)+"\n)")
 			}
 			return build(0)
@@ -1248,7 +1348,8 @@ func (f *gtFn) branches(c *gtCtx, whole ast.Node, brs []gtBranch, k gtCont) stri
 			mon = f.probe(func() { gen(&gtCtx{ret: func(string) string { return noExit() }, mon: true}) })
 		}
 		jc := &gtCtx{ret: func(string) string { return noExit() }, mon: mon}
-		term := gen(jc)
+		term := f.scoped(func() string { return gen(jc) })
+		f.forget(vars...)
 		if len(vars) == 0 && !mon {
 			// no effect at all (conditions are pure, bodies only contained stripped statements)
 			if !c.mon && f.monOps > 0 {
@@ -1283,7 +1384,7 @@ func (f *gtFn) branches(c *gtCtx, whole ast.Node, brs []gtBranch, k gtCont) stri
 			return f.stmts(c, b.body, k)
 		}
 		cv := b.cond()
-		th := f.stmts(c, b.body, k)
+		th := f.scoped(func() string { return f.stmts(c, b.body, k) })
 		el := build(i + 1)
 		// `if c then A else rest` reads best without nesting the else part
 		return gtBinds(cv.pre, "if "+cv.s+" then (\n"+gtIndent(th, 1)+"\n) else\n"+el)
@@ -1324,7 +1425,9 @@ func (f *gtFn) rangeStmt(c *gtCtx, x *ast.RangeStmt, k gtCont) string {
 			if gtNodeText(f.tr.l.fset, t) != collText {
 				return
 			}
-			if isDelete && coll.t.k == gkMap {
+			// deleting or overwriting the entry of the CURRENT key of a map is well defined in Go and does
+			// not change which entries the loop visits
+			if key != nil && coll.t.k == gkMap {
 				if id, ok := gtUnparen(key).(*ast.Ident); ok && keyObj != nil && f.info.Uses[id] == keyObj {
 					return
 				}
@@ -1334,13 +1437,21 @@ func (f *gtFn) rangeStmt(c *gtCtx, x *ast.RangeStmt, k gtCont) string {
 		switch s := n.(type) {
 		case *ast.AssignStmt:
 			for _, l := range s.Lhs {
-				if _, ok := gtUnparen(l).(*ast.IndexExpr); ok {
-					check(l, false, nil)
+				if ix, ok := gtUnparen(l).(*ast.IndexExpr); ok {
+					if gtNodeText(f.tr.l.fset, gtUnparen(ix.X)) == collText {
+						check(l, false, ix.Index)
+					} else {
+						check(l, false, nil)
+					}
 				}
 			}
 		case *ast.IncDecStmt:
-			if _, ok := gtUnparen(s.X).(*ast.IndexExpr); ok {
-				check(s.X, false, nil)
+			if ix, ok := gtUnparen(s.X).(*ast.IndexExpr); ok {
+				if gtNodeText(f.tr.l.fset, gtUnparen(ix.X)) == collText {
+					check(s.X, false, ix.Index)
+				} else {
+					check(s.X, false, nil)
+				}
 			}
 		case *ast.CallExpr:
 			if id, ok := gtUnparen(s.Fun).(*ast.Ident); ok {
@@ -1398,7 +1509,10 @@ func (f *gtFn) rangeStmt(c *gtCtx, x *ast.RangeStmt, k gtCont) string {
 
 	// is the body monadic?
 	bodyGen := func(lc *gtCtx) string {
-		return f.stmts(lc, x.Body.List, lc.cont)
+		return f.scoped(func() string {
+			f.forget(state...) // rebound by the loop function
+			return f.stmts(lc, x.Body.List, lc.cont)
+		})
 	}
 	simple := !hasRet && !hasBrk
 	mkCtx := func(mon bool) *gtCtx {
@@ -1421,6 +1535,7 @@ func (f *gtFn) rangeStmt(c *gtCtx, x *ast.RangeStmt, k gtCont) string {
 	lc := mkCtx(mon)
 	body := bodyGen(lc)
 	init := st
+	f.forget(state...)
 
 	if simple {
 		if len(state) == 0 && !mon {
@@ -1433,10 +1548,11 @@ func (f *gtFn) rangeStmt(c *gtCtx, x *ast.RangeStmt, k gtCont) string {
 		return gtBinds(coll.pre, stPat+" <- go_fold_m (fun "+stPat+" "+elemPat+" =>\n"+gtIndent(body, 2)+")\n    "+gtPar(collTerm)+" "+gtPar(init)+" ;;\n"+k())
 	}
 	rann := ""
-	retBranch := "| LReturn r => " + c.ret("r")
+	rv := f.tmp()
+	retBranch := "| LReturn " + rv + " => " + c.ret(rv)
 	if !hasRet {
 		rann = " (R := Empty_set)"
-		retBranch = "| LReturn r => match r with end"
+		retBranch = "| LReturn " + rv + " => match " + rv + " with end"
 	}
 	rest := k()
 	matchTail := "| LNext " + gtPar(st) + " | LBreak " + gtPar(st) + " =>\n" + gtIndent(rest, 1) + "\n" + retBranch + "\nend"
@@ -1452,10 +1568,61 @@ func (f *gtFn) rangeStmt(c *gtCtx, x *ast.RangeStmt, k gtCont) string {
 	return gtBinds(coll.pre, t+" <- go_range_m"+rann+" "+gtPar(collTerm)+"\n  "+lam+" "+gtPar(init)+" ;;\nmatch "+t+" with\n"+matchTail)
 }
 
+// pinText prints a statement that is left out of the translation (critical section prefix, skipped
+// statement) for pinning: stripped statements (logging ...) inside it are removed first, empty lines are
+// dropped, so that only edits of the remaining code change the text.
+func (f *gtFn) pinText(st ast.Stmt) string {
+	type saved struct {
+		list *[]ast.Stmt
+		old  []ast.Stmt
+	}
+	var undo []saved
+	filter := func(list *[]ast.Stmt) {
+		var kept []ast.Stmt
+		changed := false
+		for _, x := range *list {
+			if f.stripped(x) {
+				changed = true
+				continue
+			}
+			kept = append(kept, x)
+		}
+		if changed {
+			undo = append(undo, saved{list, *list})
+			*list = kept
+		}
+	}
+	ast.Inspect(st, func(n ast.Node) bool {
+		switch x := n.(type) {
+		case *ast.BlockStmt:
+			filter(&x.List)
+		case *ast.CaseClause:
+			filter(&x.Body)
+		}
+		return true
+	})
+	text := gtNodeText(f.tr.l.fset, st)
+	for i := len(undo) - 1; i >= 0; i-- {
+		*undo[i].list = undo[i].old
+	}
+	var lines []string
+	for _, l := range strings.Split(text, "\n") {
+		if strings.TrimSpace(l) != "" {
+			lines = append(lines, l)
+		}
+	}
+	return strings.Join(lines, "\n")
+}
+
 func gtNodeText(fset *token.FileSet, n ast.Node) string {
 	var b bytes.Buffer
 	if err := printer.Fprint(&b, fset, n); err != nil {
 		return fmt.Sprintf("%T", n)
 	}
-	return b.String()
+	// a declaration statement is printed with its doc comment: drop leading comment lines
+	lines := strings.Split(b.String(), "\n")
+	for len(lines) > 1 && strings.HasPrefix(strings.TrimSpace(lines[0]), "//") {
+		lines = lines[1:]
+	}
+	return strings.Join(lines, "\n")
 }
